@@ -6,4 +6,5 @@ CONSTANTS
 INVARIANT Conservation
 INVARIANT ResultsArePrefix
 INVARIANT ResultsAsPrescribed
+INVARIANT WritesPassThrough
 CHECK_DEADLOCK FALSE
